@@ -399,16 +399,28 @@ func HintBitPack(p *Params, h []*Poly) []byte {
 // HintBitUnpack is Algorithm 21; ok=false is the specification's ⊥.
 func HintBitUnpack(p *Params, y []byte) (h []*Poly, ok bool) {
 	h = newVec(p.K)
+	if !HintBitUnpackInto(p, y, h) {
+		return nil, false
+	}
+	return h, true
+}
+
+// HintBitUnpackInto is HintBitUnpack writing into a caller-provided vector of k polynomials
+// (its content is meaningless when false is returned).
+func HintBitUnpackInto(p *Params, y []byte, h []*Poly) bool {
+	for i := range h {
+		*h[i] = Poly{}
+	}
 	index := 0
 	for i := 0; i < p.K; i++ {
 		if int(y[p.Omega+i]) < index || int(y[p.Omega+i]) > p.Omega {
-			return nil, false
+			return false
 		}
 		first := index
 		for index < int(y[p.Omega+i]) {
 			if index > first {
 				if y[index-1] >= y[index] {
-					return nil, false
+					return false
 				}
 			}
 			h[i][y[index]] = 1
@@ -417,10 +429,10 @@ func HintBitUnpack(p *Params, y []byte) (h []*Poly, ok bool) {
 	}
 	for i := index; i < p.Omega; i++ {
 		if y[i] != 0 {
-			return nil, false
+			return false
 		}
 	}
-	return h, true
+	return true
 }
 
 func newVec(n int) []*Poly {
